@@ -72,9 +72,12 @@ class Multi(Alpha, Beta, Shared):
 }
 TIE = {
     "__init__.py": "",
-    "pa/__init__.py": "from tiepk.core.shared import Shared\n",
-    "pb/__init__.py": "from tiepk.core.shared import Shared\n",
-    "pc/__init__.py": "from tiepk.core.shared import Shared\n",
+    # three packages of equal depth re-export one class and one whole module
+    "pa/__init__.py": "from tiepk.core.shared import Shared\nfrom tiepk.core.deep import helpers\n",
+    "pb/__init__.py": "from tiepk.core.shared import Shared\nfrom tiepk.core.deep import helpers\n",
+    "pc/__init__.py": "from tiepk.core.shared import Shared\nfrom tiepk.core.deep import helpers\n",
+    "core/deep/__init__.py": "",
+    "core/deep/helpers.py": "def helper_fun() -> int:\n    ...\n\n\nclass HelperCls:\n    pass\n",
     "core/__init__.py": "",
     "core/shared.py": "class Shared:\n    pass\n",
     "core/user.py": "from tiepk.core.shared import Shared\n\n\ndef use(a: Shared) -> Shared:\n    ...\n",
